@@ -106,7 +106,7 @@ def extend(x, cons):
     return y
 
 
-def one_case(ctx, r, lines, checks, big=False, directed=None):
+def one_case(ctx, r, lines, checks, big=False, directed=None, given_modes=None):
     vt, raw = directed or gen_poly(r, big)
     dom = (0, 1) if vt == 'BINARY' else (-1, 1)
     pnorm = norm(raw, vt)
@@ -223,6 +223,12 @@ def one_case(ctx, r, lines, checks, big=False, directed=None):
     checks.append((site + ' vs Red.makeQuadratic', vt, 'ok ' + canon_bqm(bqm) + '|' + ','.join(lab(a) for a in auxs), srcq, badq))
     if badq:
         return
+    # --- make_quadratic / make_quadratic_cqm onto a given model
+    if (given_modes or r.random() < (.45 if ctx.quick else .2)) and len(pvars) <= 6:
+        for mode in (given_modes or [None]):
+            given_bqm_case(ctx, r, vt, raw, rawf, pnorm, pvars, src0, raw_text, lines, checks, mode=mode and mode[:2], adversarial=bool(mode) and len(mode) > 2)
+    if (given_modes or r.random() < (.3 if ctx.quick else .12)) and len(pvars) <= 5 and len(cons_o) <= 3:
+        given_cqm_case(ctx, r, vt, raw, rawf, pnorm, pvars, src0, raw_text, adversarial=bool(given_modes) and any(len(m) > 2 for m in given_modes))
     # penalty part: E_bqm - E_reduced with the reduction make_quadratic used (same poly => same deterministic choices in this process)
     if len(pvars) + len(prods_q) + len(auxs) <= 12 and cons_q == cons_o:
         site = 'make_quadratic'
@@ -289,6 +295,207 @@ def one_case(ctx, r, lines, checks, big=False, directed=None):
     # --- HigherOrderComposite
     if r.random() < .35 and len(pvars) + 2 * len(cons_o) <= 12:
         hoc_case(ctx, r, vt, raw, rawf, poly, pnorm, pvars, src0)
+
+
+GEXTRA = ['g', 'h', 7]
+
+
+def lookalikes(r, pvars, k):
+    """up to k labels that `_new_product` / `_new_aux` would generate for pairs of the polynomial's variables"""
+    names = []
+    for u, v in itertools.permutations(pvars, 2):
+        names += [f'{u}*{v}', f'aux{u},{v}']
+    names = sorted(set(names) - set(pvars))
+    return names if k is None else r.sample(names, min(k, len(names)))
+
+
+def conv_value(t, vt, gvt):
+    """value, in the given model's vartype `gvt`, of a variable that has value `t` in vartype `vt`"""
+    if vt == gvt:
+        return t
+    return 2 * t - 1 if vt == 'BINARY' else F(t + 1, 2)
+
+
+def given_bqm_case(ctx, r, vt, raw, rawf, pnorm, pvars, src0, raw_text, lines, checks, mode=None, adversarial=False):
+    """`make_quadratic(poly, strength, vartype, bqm=<non-empty model>)`: the given model has the same or the other
+    vartype, `vartype` is passed or omitted; result vartype and energy = polynomial + (converted) given model"""
+    other = 'SPIN' if vt == 'BINARY' else 'BINARY'
+    mode = mode or r.choice([('same', True), ('other', True), ('other', True), ('same', False)])
+    gvt = vt if mode[0] == 'same' else other
+    pass_vt = mode[1]
+    as_obj = r.random() < .5                       # poly as BinaryPolynomial or as the raw term list
+    gv = r.sample(pvars, min(len(pvars), r.randint(0, 3))) + r.sample(GEXTRA, r.randint(0, 2))
+    if adversarial or r.random() < .12:
+        gv += lookalikes(r, pvars, None if adversarial else 3)
+    gv = gv or ['g']
+    lin = {v: F(r.randint(-8, 8), 4) for v in gv}
+    quad = {(u, v): F(r.randint(-8, 8), 4) for u, v in itertools.combinations(gv, 2) if r.random() < .6}
+    off = F(r.randint(-8, 8), 4)
+    strength = r.choice([F(1), F(2), F(1, 2), F(3)])
+    cls = f"bqm= of the {mode[0]} vartype, vartype {'given' if pass_vt else 'omitted'}"
+    site = 'make_quadratic'
+    glin_f = {v: float(b) for v, b in lin.items()}; gquad_f = {k: float(b) for k, b in quad.items()}
+    src = (src0 + f'gvt = {gvt!r}\ngiven = dimod.BinaryQuadraticModel({glin_f!r}, {gquad_f!r}, {float(off)!r}, gvt)\n'
+           'G = ({v: F(b) for v, b in given.linear.items()}, {k: F(b) for k, b in given.quadratic.items()}, F(given.offset))\n'
+           f'arg = {"poly" if as_obj else "raw"}\n'
+           f'bqm = dimod.make_quadratic(arg, {float(strength)!r}, {"vt" if pass_vt else "None"}, bqm=given)\n'
+           'assert bqm.vartype.name == vt, ("result vartype", bqm.vartype)\n'
+           'new = [n for d in bqm.info["reduction"].values() for n in d.values()]\n'
+           'assert not (set(new) & set(G[0])), ("a new variable is a variable of the given model", set(new) & set(G[0]))\n'
+           'def en(x): return F(bqm.offset) + sum(F(bqm.get_linear(v))*x[v] for v in bqm.variables) + sum(F(q)*x[u]*x[v] for u, v, q in bqm.iter_quadratic())\n'
+           'def cv(t): return t if gvt == vt else (2*t - 1 if vt == "BINARY" else F(t + 1, 2))\n'
+           'info = bqm.info["reduction"]\nprods = [d["product"] for d in info.values()]; auxs = [d["auxiliary"] for d in info.values() if "auxiliary" in d]\n'
+           'allv = sorted(set(vs) | set(G[0]), key=repr)\n'
+           'for t in itertools.product(dom, repeat=len(allv)):\n'
+           '    x = dict(zip(allv, t))\n'
+           '    want = pe(P, x) + G[2] + sum(b*cv(x[v]) for v, b in G[0].items()) + sum(b*cv(x[u])*cv(x[v]) for (u, v), b in G[1].items())\n'
+           '    for (u, v), d in info.items(): x[d["product"]] = x[u] * x[v]\n'
+           '    m = min(en({**x, **dict(zip(auxs, a))}) for a in itertools.product(dom, repeat=len(auxs)))\n'
+           '    assert m == want, (x, m, want)\n')
+    given = dimod.BinaryQuadraticModel(glin_f, gquad_f, float(off), gvt)
+    arg = BinaryPolynomial(rawf, vt) if as_obj else rawf
+    try:
+        res = dimod.make_quadratic(arg, float(strength), vt if pass_vt else None, bqm=given)
+    except Exception as e:  # noqa
+        ctx.fail('property', site, cls + ': raises', f'{type(e).__name__}: {e} on {raw!r} given {gvt} {lin!r} {quad!r}', repro=src)
+        return
+    info = res.info['reduction']
+    cons_q = [((u, v), d['product']) for (u, v), d in info.items()]
+    auxs = [d['auxiliary'] for d in info.values() if 'auxiliary' in d]
+    ctx.tick(f'make_quadratic:given:{mode[0]}:{"vt" if pass_vt else "novt"}')
+    ctx.case(('mqg', vt, mode, strength, raw_text, tuple(sorted(map(repr, lin.items()))), tuple(sorted(map(repr, quad.items()))), off), nontrivial=True)
+    bad = False
+    if res.vartype.name != vt:
+        bad = True
+        ctx.fail('property', site, cls + ': result vartype', f'{raw!r} as {vt} onto a {gvt} model: the result is {res.vartype.name}', repro=src)
+    clash = sorted(set([p for _, p in cons_q] + auxs) & set(gv))
+    if not bad and clash:
+        bad = True
+        ctx.fail('property', site, 'bqm= given: a product / auxiliary name equals a variable of the given model',
+                 f'{raw!r} ({vt}) onto a model with variables {gv!r}: introduced {clash!r} (reduction {dict(info)!r})', repro=src)
+    dom = (0, 1) if vt == 'BINARY' else (-1, 1)
+    allv = sorted(set(pvars) | set(gv), key=repr)
+    c = coef(res)
+    if not bad and len(allv) + len(auxs) <= ctx.scale(11, 13):
+        for tv in itertools.product(dom, repeat=len(allv)):
+            x0 = dict(zip(allv, tv))
+            y = {v: conv_value(t, vt, gvt) for v, t in x0.items()}
+            want = pe(pnorm, x0) + energy((lin, quad, off), y)
+            x = extend(x0, cons_q)
+            try:
+                m = min(energy(c, {**x, **dict(zip(auxs, a))}) for a in itertools.product(dom, repeat=len(auxs)))
+            except KeyError as e:
+                m = f'undefined (variable {e} missing)'
+            if m != want:
+                bad = True
+                ctx.fail('property', site, cls + ': energy on a consistent assignment',
+                         f'{raw!r} ({vt}) strength {strength} onto {gvt} model lin {lin!r} quad {quad!r} offset {off}: at {x0!r} the result (min over auxiliaries) has {m}, polynomial + given model = {want}', repro=src)
+                break
+    gl = ','.join(f'{lab(v)}={rat(b)}' for v, b in lin.items()) or '-'
+    gq = ','.join(f'{lab(u)}~{lab(v)}={rat(b)}' for (u, v), b in quad.items()) or '-'
+    ch = ','.join(f'{lab(u)}~{lab(v)}>{lab(p)}' for (u, v), p in cons_q) or '-'
+    lines.append(f"mqg {vt if pass_vt else '-'} {rat(strength)} {raw_text} {ch} {gvt} {gl} {gq} {rat(off)}")
+    checks.append((site + ' vs Red.makeQuadraticOnto', cls, f'ok {res.vartype.name} ' + canon_bqm(res) + '|' + ','.join(lab(a) for a in auxs), src, bad))
+
+
+def given_cqm_case(ctx, r, vt, raw, rawf, pnorm, pvars, src0, raw_text, adversarial=False):
+    """`make_quadratic_cqm(poly, vartype, cqm=<non-empty CQM>)`: the given objective and constraints stay, the
+    product constraints and the reduced objective are added"""
+    site = 'make_quadratic_cqm'
+    other = 'SPIN' if vt == 'BINARY' else 'BINARY'
+    shared = r.sample(pvars, min(len(pvars), r.randint(0, 2)))
+    own = []
+    for name in r.sample(GEXTRA, r.randint(1, 2)):
+        own.append((name, r.choice([vt, other, other, 'INTEGER'])))
+    pass_vt = r.random() < .6
+    conflict = bool(pvars) and r.random() < .12 and not adversarial       # a polynomial variable already present with the other vartype
+    if conflict:
+        shared_t = [(shared[0] if shared else pvars[0], other)]
+    else:
+        shared_t = [(v, vt) for v in shared]
+    adv = lookalikes(r, pvars, None) if adversarial else [] if conflict or r.random() > .2 else lookalikes(r, pvars, 2)
+    own += [(name, vt) for name in adv]
+    decl = shared_t + own
+    cls = 'cqm= with a conflicting variable type' if conflict else f"cqm= given, vartype {'given' if pass_vt else 'omitted'}"
+    lin = {v: F(r.randint(-8, 8), 4) for v, _ in decl}
+    quad = {(u, v): F(r.randint(-8, 8), 4) for (u, _), (v, _) in itertools.combinations(decl, 2) if r.random() < .5}
+    off = F(r.randint(-8, 8), 4)
+    con = [(v, r.randint(-2, 2)) for v, _ in r.sample(decl, min(len(decl), 2))] if r.random() < .7 else []
+    rhs = r.randint(-1, 2)
+    src = (src0 + f'decl, lin, quad, off, con, rhs = {decl!r}, { {v: float(b) for v, b in lin.items()}!r}, { {k: float(b) for k, b in quad.items()}!r}, {float(off)!r}, {con!r}, {rhs!r}\n'
+           'mk = {"BINARY": dimod.Binary, "SPIN": dimod.Spin, "INTEGER": lambda v: dimod.Integer(v, lower_bound=0, upper_bound=2)}\n'
+           'X = {v: mk[t](v) for v, t in decl}\n'
+           'given = dimod.ConstrainedQuadraticModel()\n'
+           'given.set_objective(sum(b*X[v] for v, b in lin.items()) + sum(b*X[u]*X[v] for (u, v), b in quad.items()) + off)\n'
+           'if con: given.add_constraint(sum(a*X[v] for v, a in con) <= rhs, label="given")\n'
+           'doms = {"BINARY": (0, 1), "SPIN": (-1, 1), "INTEGER": (0, 1, 2)}\n'
+           f'arg, vta = {"(poly, vt)" if pass_vt else "(poly, None)"}\n'
+           'try:\n    cqm = dimod.make_quadratic_cqm(arg, vta, cqm=given)\nexcept ValueError:\n'
+           '    assert any(t != vt and v in vs for v, t in decl), "refused although no variable type conflicts"\n    raise SystemExit(0)\n'
+           'assert "given" in cqm.constraints or not con\n'
+           'assert len(set(cqm.variables) - set(vs) - {v for v, _ in decl}) == len(cqm.constraints) - (1 if con else 0), "a product variable is a variable of the given model"\n'
+           'allv = list(cqm.variables)\n'
+           'for t in itertools.product(*[doms[cqm.vartype(v).name] for v in allv]):\n'
+           '    x = dict(zip(allv, t))\n'
+           '    ok = all(c.lhs.energy(x) == c.rhs for l, c in cqm.constraints.items() if l != "given")\n'
+           '    want = pe(P, x) + F(off) + sum(F(b)*x[v] for v, b in lin.items()) + sum(F(b)*x[u]*x[v] for (u, v), b in quad.items())\n'
+           '    if ok: assert F(float(cqm.objective.energy(x))) == want, (x, cqm.objective.energy(x), want)\n'
+           '    if con: assert F(float(cqm.constraints["given"].lhs.energy(x))) == sum(a*x[v] for v, a in con)\n')
+    mk = {'BINARY': dimod.Binary, 'SPIN': dimod.Spin, 'INTEGER': lambda v: dimod.Integer(v, lower_bound=0, upper_bound=2)}
+    X = {v: mk[t](v) for v, t in decl}
+    given = dimod.ConstrainedQuadraticModel()
+    given.set_objective(sum(float(b) * X[v] for v, b in lin.items()) + sum(float(b) * X[u] * X[v] for (u, v), b in quad.items()) + float(off))
+    if con:
+        given.add_constraint(sum(a * X[v] for v, a in con) <= rhs, label='given')
+    poly = BinaryPolynomial(rawf, vt)
+    ctx.tick(f'make_quadratic_cqm:given:{"conflict" if conflict else "ok"}')
+    ctx.case(('mqcqmg', vt, raw_text, tuple(decl), tuple(sorted(map(repr, lin.items()))), tuple(sorted(map(repr, quad.items()))), off, tuple(con), rhs), nontrivial=True)
+    real_conflict = any(t != vt and v in pvars for v, t in decl)
+    try:
+        cqm = dimod.make_quadratic_cqm(poly, vt if pass_vt else None, cqm=given)
+    except ValueError as e:
+        if not real_conflict:
+            ctx.fail('property', site, cls + ': raises', f'ValueError: {e} on {raw!r} given {decl!r}', repro=src)
+        return
+    except Exception as e:  # noqa
+        ctx.fail('property', site, cls + ': raises', f'{type(e).__name__}: {e} on {raw!r} given {decl!r}', repro=src)
+        return
+    if real_conflict:
+        ctx.fail('property', site, cls, f'{raw!r} as {vt}: accepted although {decl!r} declares a polynomial variable with another type', repro=src)
+        return
+    doms = {'BINARY': (0, 1), 'SPIN': (-1, 1), 'INTEGER': (0, 1, 2)}
+    allv = list(cqm.variables)
+    if len(set(allv) - set(pvars) - {v for v, _ in decl}) != len(cqm.constraints) - (1 if con else 0):
+        ctx.fail('property', site, 'cqm= given: a product name equals a variable of the given model',
+                 f'{raw!r} ({vt}) onto a CQM with variables {decl!r}: constraints {list(cqm.constraints)!r}, variables {allv!r}', repro=src)
+        return
+    if con and 'given' not in cqm.constraints:
+        ctx.fail('property', site, cls + ': given constraint lost', f'{raw!r}: constraints {list(cqm.constraints)!r}', repro=src)
+        return
+    types = {v: cqm.vartype(v).name for v in allv}
+    wrong = [v for v, t in decl if types.get(v) != t] + [v for v in pvars if types.get(v) != vt]
+    if wrong:
+        ctx.fail('property', site, cls + ': variable types', f'{raw!r} as {vt}, given {decl!r}: types {types!r}', repro=src)
+        return
+    size = 1
+    for v in allv:
+        size *= len(doms[types[v]])
+    if size > ctx.scale(3000, 20000):
+        return
+    prodc = [(l, cc) for l, cc in cqm.constraints.items() if l != 'given']
+    for tv in itertools.product(*[doms[types[v]] for v in allv]):
+        x = dict(zip(allv, tv))
+        if con:
+            cg = cqm.constraints['given']
+            if fr(cg.lhs.energy(x)) != sum(a * x[v] for v, a in con) or cg.rhs != rhs or cg.sense.name != 'Le':
+                ctx.fail('property', site, cls + ': given constraint changed', f'{raw!r}: at {x!r} lhs {cg.lhs.energy(x)} sense {cg.sense.name} rhs {cg.rhs}; was {con!r} <= {rhs}', repro=src)
+                return
+        if all(fr(cc.lhs.energy(x)) == fr(cc.rhs) for _, cc in prodc):
+            want = pe(pnorm, x) + energy((lin, quad, off), x)
+            if fr(cqm.objective.energy(x)) != want:
+                ctx.fail('property', site, cls + ': objective on a feasible assignment',
+                         f'{raw!r} as {vt} onto objective lin {lin!r} quad {quad!r} offset {off} ({decl!r}): at {x!r} objective {cqm.objective.energy(x)}, polynomial + given objective = {want}', repro=src)
+                return
 
 
 def hoc_case(ctx, r, vt, raw, rawf, poly, pnorm, pvars, src0):
@@ -374,7 +581,8 @@ def run(ctx):
     r = ctx.rng
     ctx.rule = ('random polynomials of degree <= 6 (<= 7 thorough) over 3-6 variables with a shared core of variables (heavy pair overlap), both vartypes, repeated variables '
                 'inside terms, repeated monomials, zero biases, constants, occasionally labels that look like generated product/auxiliary names; a case = one call of '
-                'reduce_binary_polynomial / make_quadratic / make_quadratic_cqm / HigherOrderComposite.sample_poly; every consistent assignment is enumerated; '
+                'reduce_binary_polynomial / make_quadratic / make_quadratic_cqm / HigherOrderComposite.sample_poly; make_quadratic also onto a given non-empty bqm= of the same / the other '
+                'vartype with and without vartype=, make_quadratic_cqm onto a given cqm= with its own objective, constraint and variables of other types; every consistent assignment is enumerated; '
                 'non-trivial = the polynomial has degree > 2 (a product variable is introduced)')
     lines, checks = [], []
     ctx._hoc_lines, ctx._hoc_checks = [], []
@@ -384,6 +592,12 @@ def run(ctx):
     one_case(ctx, r, lines, checks, directed=aux_collision_directed())
     for vt in ('BINARY', 'SPIN'):
         one_case(ctx, r, lines, checks, directed=(vt, same_text_pairs_directed()))
+    # every combination of given-model vartype / `vartype=` argument, both polynomial vartypes
+    for vt in ('BINARY', 'SPIN'):
+        one_case(ctx, r, lines, checks, directed=(vt, [((0, 1, 2), F(-2)), ((0,), F(1)), ((1, 2, 'a'), F(3, 4))]),
+                 given_modes=[('same', True), ('other', True), ('same', False)])
+    # the given model already has variables named like every product / auxiliary the reduction could create (D38)
+    one_case(ctx, r, lines, checks, directed=('SPIN', [((0, 1, 2), F(-2)), ((0, 1, 3), F(1))]), given_modes=[('same', True, 'adversarial')])
     for _ in range(ctx.scale(230, 2200)):
         one_case(ctx, r, lines, checks)
     if not ctx.quick:
